@@ -1005,4 +1005,141 @@ theorem tdiv_toward_zero (v p : Int) (hp : 0 < p) :
     rw [Int.neg_tdiv] at this
     omega
 
+/-! ## the denoted rational value -/
+
+/-- one unit of the last place at exponent `e`: `ρ^e` -/
+def unit (ρ : Nat) (e : Int) : Rat := den ρ 1 e
+
+theorem pwR_ne (ρ : Nat) (hρ : 2 ≤ ρ) (k : Nat) : ((pw ρ k : Int) : Rat) ≠ 0 := by
+  have := pw_pos hρ k
+  intro h; rw [Rat.intCast_eq_zero_iff] at h; omega
+
+theorem pwR_pos (ρ : Nat) (hρ : 2 ≤ ρ) (k : Nat) : (0 : Rat) < ((pw ρ k : Int) : Rat) := by
+  have := pw_pos hρ k
+  exact Rat.intCast_pos.2 this
+
+theorem den_eq_mul_unit (ρ : Nat) (rep e : Int) : den ρ rep e = (rep : Rat) * unit ρ e := by
+  unfold unit den
+  split <;> grind
+
+theorem unit_pos (ρ : Nat) (hρ : 2 ≤ ρ) (e : Int) : 0 < unit ρ e := by
+  unfold unit den
+  split
+  · have := pwR_pos ρ hρ e.toNat
+    unfold pw at this
+    simpa using this
+  · have := pwR_pos ρ hρ (-e).toNat
+    unfold pw at this
+    rw [Rat.div_def]
+    simpa using Rat.inv_pos.2 this
+
+/-- `ρ^e = ρ^(e-c) · ρ^c` for `c ≤ e`, whatever the signs -/
+theorem unit_split (ρ : Nat) (hρ : 2 ≤ ρ) {e c : Int} (h : c ≤ e) :
+    unit ρ e = ((pw ρ (e - c).toNat : Int) : Rat) * unit ρ c := by
+  unfold unit den
+  by_cases h0 : 0 ≤ c
+  · have he : 0 ≤ e := by omega
+    simp only [h0, he, ite_true]
+    have : e.toNat = (e - c).toNat + c.toNat := by omega
+    have hp := pw_add ρ (e - c).toNat c.toNat
+    rw [← this] at hp
+    unfold pw at hp ⊢
+    rw [hp, Rat.intCast_mul]; grind
+  · by_cases he : 0 ≤ e
+    · simp only [h0, he, ite_true, ite_false]
+      have : (e - c).toNat = e.toNat + (-c).toNat := by omega
+      have hp := pw_add ρ e.toNat (-c).toNat
+      rw [← this] at hp
+      have hne := pwR_ne ρ hρ (-c).toNat
+      unfold pw at hp hne ⊢
+      rw [hp, Rat.intCast_mul]; grind
+    · simp only [h0, he, ite_false]
+      have : (-c).toNat = (e - c).toNat + (-e).toNat := by omega
+      have hp := pw_add ρ (e - c).toNat (-e).toNat
+      rw [← this] at hp
+      have hne := pwR_ne ρ hρ (-c).toNat
+      have hne' := pwR_ne ρ hρ (-e).toNat
+      have hne'' := pwR_ne ρ hρ (e - c).toNat
+      unfold pw at hp hne hne' hne'' ⊢
+      have hp' : (((ρ:Int) ^ (-c).toNat : Int) : Rat) = (((ρ:Int) ^ (e - c).toNat : Int) : Rat) * (((ρ:Int) ^ (-e).toNat : Int) : Rat) := by
+        rw [hp, Rat.intCast_mul]
+      grind
+
+/-- re-expressing a representation at a smaller exponent does not change the denoted value -/
+theorem den_aligned (ρ : Nat) (hρ : 2 ≤ ρ) {e c : Int} (h : c ≤ e) (rep : Int) :
+    den ρ (aligned ρ e c rep) c = den ρ rep e := by
+  rw [den_eq_mul_unit, den_eq_mul_unit ρ rep e, unit_split ρ hρ h]
+  unfold aligned
+  rw [Rat.intCast_mul, Rat.mul_assoc]
+
+theorem den_add (ρ : Nat) (a b e : Int) : den ρ (a + b) e = den ρ a e + den ρ b e := by
+  simp only [den_eq_mul_unit, Rat.intCast_add, Rat.add_mul]
+
+theorem den_sub (ρ : Nat) (a b e : Int) : den ρ (a - b) e = den ρ a e - den ρ b e := by
+  simp only [den_eq_mul_unit, Rat.intCast_sub]; grind
+
+theorem den_neg (ρ : Nat) (a e : Int) : den ρ (-a) e = -den ρ a e := by
+  simp only [den_eq_mul_unit, Rat.intCast_neg, Rat.neg_mul]
+
+theorem den_lt_iff (ρ : Nat) (hρ : 2 ≤ ρ) (a b e : Int) : den ρ a e < den ρ b e ↔ a < b := by
+  rw [den_eq_mul_unit, den_eq_mul_unit ρ b e, Rat.mul_lt_mul_right (unit_pos ρ hρ e), Rat.intCast_lt_intCast]
+
+theorem den_le_iff (ρ : Nat) (hρ : 2 ≤ ρ) (a b e : Int) : den ρ a e ≤ den ρ b e ↔ a ≤ b := by
+  rw [← Rat.not_lt, den_lt_iff ρ hρ]; omega
+
+theorem den_inj (ρ : Nat) (hρ : 2 ≤ ρ) (a b e : Int) : den ρ a e = den ρ b e ↔ a = b := by
+  constructor
+  · intro h
+    have h1 : ¬ den ρ a e < den ρ b e := by rw [h]; exact Rat.lt_irrefl
+    have h2 : ¬ den ρ b e < den ρ a e := by rw [h]; exact Rat.lt_irrefl
+    rw [den_lt_iff ρ hρ] at h1 h2; omega
+  · intro h; rw [h]
+
+/-- the six relations on rationals -/
+def cmpRat (op : CmpOp) (a b : Rat) : Bool :=
+  match op with
+  | .lt => decide (a < b) | .le => decide (a ≤ b) | .gt => decide (b < a)
+  | .ge => decide (b ≤ a) | .eq => decide (a = b) | .ne => decide (a ≠ b)
+
+theorem cmpRat_den (ρ : Nat) (hρ : 2 ≤ ρ) (op : CmpOp) (a b e : Int) :
+    cmpRat op (den ρ a e) (den ρ b e) = cmpInt op a b := by
+  cases op <;> simp only [cmpRat, cmpInt, decide_eq_decide, den_lt_iff ρ hρ, den_le_iff ρ hρ, den_inj ρ hρ, ne_eq,
+    gt_iff_lt, ge_iff_le]
+
+/-- the order of the denoted values is the order of the aligned representations -/
+theorem cmpRat_den_aligned (ρ : Nat) (hρ : 2 ≤ ρ) (op : CmpOp) (eL eR l r : Int) :
+    cmpRat op (den ρ l eL) (den ρ r eR)
+      = cmpInt op (aligned ρ eL (min eL eR) l) (aligned ρ eR (min eL eR) r) := by
+  rw [← den_aligned ρ hρ (show min eL eR ≤ eL by omega) l, ← den_aligned ρ hρ (show min eL eR ≤ eR by omega) r]
+  exact cmpRat_den ρ hρ op _ _ _
+
+/-- `ρ^(eL+eR) = ρ^eL · ρ^eR` -/
+theorem unit_add (ρ : Nat) (hρ : 2 ≤ ρ) (eL eR : Int) : unit ρ (eL + eR) = unit ρ eL * unit ρ eR := by
+  -- express all three at an exponent `b ≤ 0` below all of them
+  let b : Int := -((eL.natAbs : Int) + eR.natAbs)
+  have hb0 : b ≤ 0 := by omega
+  have h1 := unit_split ρ hρ (show b ≤ eL by omega)
+  have h2 := unit_split ρ hρ (show b ≤ eR by omega)
+  have h3 := unit_split ρ hρ (show b ≤ eL + eR by omega)
+  have h4 := unit_split ρ hρ (show b ≤ 0 by omega)
+  have hu0 : unit ρ 0 = 1 := by unfold unit den; simp
+  rw [hu0] at h4
+  have e : (eL - b).toNat + (eR - b).toNat = (eL + eR - b).toNat + (0 - b).toNat := by omega
+  have hp : pw ρ (eL - b).toNat * pw ρ (eR - b).toNat = pw ρ (eL + eR - b).toNat * pw ρ (0 - b).toNat := by
+    rw [← pw_add, ← pw_add, e]
+  have hp' : ((pw ρ (eL - b).toNat : Int) : Rat) * ((pw ρ (eR - b).toNat : Int) : Rat)
+      = ((pw ρ (eL + eR - b).toNat : Int) : Rat) * ((pw ρ (0 - b).toNat : Int) : Rat) := by
+    rw [← Rat.intCast_mul, ← Rat.intCast_mul, hp]
+  rw [h1, h2, h3]
+  generalize unit ρ b = u at *
+  generalize ((pw ρ (eL - b).toNat : Int) : Rat) = A at *
+  generalize ((pw ρ (eR - b).toNat : Int) : Rat) = B at *
+  generalize ((pw ρ (eL + eR - b).toNat : Int) : Rat) = C at *
+  generalize ((pw ρ (0 - b).toNat : Int) : Rat) = D at *
+  grind
+
+theorem den_mul (ρ : Nat) (hρ : 2 ≤ ρ) (l r eL eR : Int) :
+    den ρ (l * r) (eL + eR) = den ρ l eL * den ρ r eR := by
+  simp only [den_eq_mul_unit, unit_add ρ hρ, Rat.intCast_mul]; grind
+
 end Cnl.ScaledP
